@@ -216,6 +216,42 @@ function sameModuloNamedRefs(a, b, defsA, defsB, cfg, assumed) {
   if (ka.length !== kb.length || ka.some((k, i) => k !== kb[i])) return false;
   return ka.every((k) => sameModuloNamedRefs(a[k], b[k], defsA, defsB, cfg, assumed));
 }
+// calls f with less and less of the stack used up (a ladder of head rooms below the deepest frame the stack allows,
+// a few frames at first, then dozens, then hundreds) until it no longer dies of stack exhaustion; returns how many
+// calls were cut off. (A first version went up one frame at a time from the very bottom: 400 such steps did not get a
+// wrapped hash256 walk past its first few calls, nothing was ever cut off inside a named type.)
+function interruptedWalks(f) {
+  const at = (d, g) => (d <= 0 ? g() : at(d - 1, g));
+  let lo = 0;
+  let hi = 1 << 20;
+  // deepest d for which at(d, noop) returns
+  while (hi - lo > 1) {
+    const mid = (lo + hi) >> 1;
+    try {
+      at(mid, () => 0);
+      lo = mid;
+    } catch (e) {
+      if (!(e instanceof RangeError)) throw e;
+      hi = mid;
+    }
+  }
+  let failures = 0;
+  const rooms = [];
+  for (let h = 1; h < 60; h += 1) rooms.push(h);
+  for (let h = 60; h < 600; h += 6) rooms.push(h);
+  for (let h = 600; h < 8000; h += 150) rooms.push(h);
+  for (const h of rooms) {
+    if (h >= lo) break;
+    try {
+      at(lo - h, f);
+      return failures;
+    } catch (e) {
+      if (e instanceof RangeError) failures++;
+      else return failures;
+    }
+  }
+  return failures;
+}
 function syntheticNameCollision(SPC, mod, cfg) {
   const seen = new Map();
   for (const n of mod.names) {
@@ -1247,6 +1283,19 @@ async function execStability(mods, run) {
           }
         }
       }
+      // ... and the same fault INSIDE the walk of this very parser: the call is made from the bottom of the stack and
+      // again from every frame above it, so that the walk is cut off by stack exhaustion at one point after another
+      // (inside named types that are open at that moment) until there is room for it to finish; whatever such a walk
+      // left open must not show in any later digest (seeded change c13j-2: one module-level table of open named
+      // types instead of one per call)
+      if (i < 2) {
+        for (const f of ["hash256", "hash"]) {
+          STEPS = -1e9;
+          const n = interruptedWalks(() => P[f]());
+          out.interruptedWalks = (out.interruptedWalks || 0) + n;
+        }
+        STEPS = 0;
+      }
       step(() => base.P[names[(i + 1) % names.length]].hash256());
       step(() => base.P[names[(i + 1) % names.length]].hash());
       // other use of the same objects in between: what a process has validated, parsed, printed
@@ -1711,6 +1760,7 @@ async function main() {
         stability.parsers_left_out_after_4s_of_cpu_on_their_module = (stability.parsers_left_out_after_4s_of_cpu_on_their_module || 0) + (r.cutShort || 0);
         stability.validate_and_safeParse_calls_in_between = (stability.validate_and_safeParse_calls_in_between || 0) + (r.usesInBetween || 0);
         stability.calls_that_died_of_stack_exhaustion_in_between = (stability.calls_that_died_of_stack_exhaustion_in_between || 0) + (r.deepThrows || 0);
+        stability.walks_of_the_module_s_own_parsers_cut_off_by_stack_exhaustion = (stability.walks_of_the_module_s_own_parsers_cut_off_by_stack_exhaustion || 0) + (r.interruptedWalks || 0);
         baseDigests.set(i, r.digests || {});
         for (const v of r.violations) if (!agg.viol.has(v.class)) agg.viol.set(v.class, { index: -3, v, run: { ...r.run, ops: [{ op: "hash256-stability" }] } });
       }, (i, run) => st.push({ i, run }));
